@@ -500,7 +500,9 @@ def rule_z3(rep, src):
         floor=3,
         necessary="UNION returns rows of both inputs and EXCEPT returns left rows whatever the right type is: a narrower column type does not contain them",
     )
-    f = own_fn(src, "Set", "schema")
+    from .canon import canon_view
+
+    f = canon_view(own_fn(src, "Set", "schema"), src, helpers=False, multi_use=True)  # `let left_data_type = left_field.data_type();` used in several arms is read through
     ops = param_names(f, "SetOperator")
     if len(ops) != 1:
         raise Anchor("Set::schema: expected one &SetOperator parameter")
